@@ -310,6 +310,48 @@ func manySessions(run *mc.Run, m int) int {
 	return len(h)
 }
 
+// agedTracker: a tracker that has already served m complete sessions (login first, LOGIN record, event, end - the
+// ordinary order), and only then the interesting part: a session whose LOGIN record precedes its login, another
+// session opened meanwhile, then the logins. Whatever bookkeeping the tracker keeps must not drift with use.
+func agedTracker(run *mc.Run, m int) int {
+	cfg := &Config{Name: fmt.Sprintf("%s-aged-tracker-%d", run.Prop, m), OSeq: true, OIdent: true}
+	for i := 0; i < m+2; i++ {
+		cfg.Sess = append(cfg.Sess, SessDef{ID: fmt.Sprint(100000 + i), PID: fmt.Sprint(200000 + i), Events: []auparse.AuditMessageType{tLOGIN, tEV, tEV2, tDISP}})
+		cfg.Logins = append(cfg.Logins, LoginDef{PID: 200000 + i})
+	}
+	var h []Op
+	for i := 0; i < m; i++ {
+		h = append(h, Op{K: "L", I: i}, Op{K: "A", I: i, J: 0}, Op{K: "A", I: i, J: 1}, Op{K: "A", I: i, J: 2}, Op{K: "A", I: i, J: 3})
+	}
+	a, b := m, m+1
+	h = append(h, Op{K: "A", I: a, J: 0}, Op{K: "A", I: b, J: 0}, Op{K: "A", I: a, J: 1}, Op{K: "L", I: a}, Op{K: "A", I: a, J: 2}, Op{K: "L", I: b},
+		Op{K: "A", I: b, J: 1}, Op{K: "A", I: a, J: 3}, Op{K: "A", I: b, J: 2}, Op{K: "A", I: b, J: 3})
+	s := &searcher{cfg: cfg, run: run, seen: map[string]bool{}}
+	w := NewWorld(cfg.Sess, cfg.Logins)
+	defer w.Close()
+	sp := NewSpec(cfg.Sess, cfg.Logins)
+	for i, o := range h {
+		before := w.Rec.Len()
+		err, pan := safeApply(w, o)
+		must, may := sp.Apply(o)
+		class, msg := "", ""
+		if pan != "" {
+			class, msg = "panic-or-deadlock:"+o.K, pan
+		} else {
+			class, msg = s.judge(w, sp, o, before, must, may, err)
+		}
+		if class != "" {
+			if len(msg) > 600 {
+				msg = msg[:600] + "..."
+			}
+			run.Violation(fmt.Sprintf("%s:aged-tracker:%s", run.Prop, class), map[string]any{"config": "aged-tracker", "earlier_sessions": m, "failing_step": i, "step": o.String()},
+				fmt.Sprintf("a tracker that has served %d complete sessions before; step %d %s: %s", m, i, o, msg))
+			break
+		}
+	}
+	return len(h)
+}
+
 // runBFS is the entry point for the history checks.
 func runBFS(run *mc.Run) int {
 	if run.Replay != "" {
@@ -367,7 +409,17 @@ func runBFS(run *mc.Run) int {
 		cov.Evaluations += ops
 		per = append(per, map[string]any{"config": "many-sessions (linear history)", "sessions_in_flight": m, "operations": ops})
 	}
-	if run.Prop == "C02" || run.Prop == "C09" {
+	if run.Prop == "C02" || run.Prop == "C01" {
+		m := 5000
+		if run.Thorough() {
+			m = 70000 // past 2^16 uses
+		}
+		ops := agedTracker(run, m)
+		cov.Transitions += ops
+		cov.Evaluations += ops
+		per = append(per, map[string]any{"config": "aged-tracker (linear history)", "earlier_complete_sessions": m, "operations": ops})
+	}
+	if run.Prop == "C02" || run.Prop == "C09" || run.Prop == "C10" {
 		n := 3000
 		if run.Thorough() {
 			n = 30000
